@@ -236,6 +236,13 @@ func reg2Op(f binaryExprFunc, i instruction, w expr.Width) expr.Expr {
 	return f(regLoad(rs1, i, w), regLoad(rs2, i, w), w)
 }
 
+// jalrTarget calculates jump target of jalr instruction i, which is sum of rs1
+// and the immediate with the least significant bit cleared.
+func jalrTarget(i instruction, w expr.Width) expr.Expr {
+	sum := regImmOp(binOpFunc(expr.Add), immTypeI, i, w)
+	return exprtools.BitAnd(sum, expr.NewConstInt(int64(-2), w), w)
+}
+
 func maskedRegOp(f binaryExprFunc, i instruction, bits uint8, w expr.Width) expr.Expr {
 	masked := exprtools.MaskBits(regLoad(rs2, i, w), exprtools.BitCnt(bits), w)
 	return f(regLoad(rs1, i, w), masked, w)
